@@ -10,6 +10,7 @@ from pyPRISM.core.MatrixArray import MatrixArray
 from pyPRISM.core.IdentityMatrixArray import IdentityMatrixArray
 from pyPRISM.core.Space import Space
 
+from .. import suite as SUITE
 from .. import ma_contracts as MC
 from .. import gen as G
 
@@ -35,6 +36,8 @@ def setup(ctx):
 
 
 def cases(ctx):
+    if ctx.mine(1):
+        yield {'kind': 'repo_suite'}          # the repository's own tests, run in-process under this check's monitors
     rng = ctx.rng('c13')
     n = ctx.budget(1600, 100000)
     maxsteps = 10 if ctx.thorough() else 6
@@ -221,6 +224,8 @@ def run_hostile_data(ctx, case):
 
 
 def run_case(ctx, case):
+    if case.get('kind') == 'repo_suite':
+        return SUITE.run(ctx, pattern='[MDS]*_test.py')      # MatrixArray, Domain, System, ... (the solving tests take minutes under per-operation references)
     if case['kind'] == 'cost':
         return run_cost(ctx, case)
     if case['kind'] == 'hostile_data':
